@@ -81,6 +81,33 @@ def build_traces(path, tier, seed):
         add({"kind": kind, "dt": enc(dt), "xi": enc(xi), "a": enc_seq(a), "periods": enc_seq(periods), "raised": raised,
              "sd": enc_seq(sd), "sv": enc_seq(sv), "sa": enc_seq(sa), "q": 1},
             {"kind": kind, "n": n, "dt": dt, "xi": xi, "T_over_dt": [p / dt for p in periods], "container": type(container).__name__, "raised": raised, "shape": shape})
+    # records held as digitiser counts in narrow integer types, with the type's most negative count (which has no absolute
+    # value in the type itself) as the peak, over periods on both sides of 6 dt
+    for j in range(6 if tier == "quick" else 40):
+        n = int(rng.integers(5, 80))
+        dtp = [np.int8, np.int16, np.int32, np.int8][j % 4]
+        top = np.iinfo(dtp).max
+        a = np.round(gen.record(rng, n, amp=1.0)[0] / 3.5 * top * 0.7).clip(-top, top).astype(dtp)
+        if j % 3 != 2:
+            a[int(rng.integers(n))] = np.iinfo(dtp).min
+        dt = [0.01, 0.02][j % 2]
+        ratios = sorted([float(rng.uniform(1.0, 5.9)), 5.99, float(rng.uniform(6.5, 40))][: 1 + j % 3])
+        periods = ([0.0] if j % 2 else []) + [r * dt for r in ratios]
+        xi = [0.05, 0.0, 0.3][j % 3]
+        kind = ["pseudo", "true"][j % 2]
+        fn = sdof.pseudo_response_spectra if kind == "pseudo" else sdof.true_response_spectra
+        raised = False
+        sd = sv = sa = []
+        try:
+            with warnings.catch_warnings():
+                warnings.simplefilter("ignore")
+                sd, sv, sa = fn(a, dt, np.array(periods), xi)
+        except Exception as ex:
+            raised = True
+        add({"kind": kind, "dt": enc(dt), "xi": enc(xi), "a": enc_seq(a), "periods": enc_seq(periods), "raised": raised,
+             "sd": enc_seq(sd), "sv": enc_seq(sv), "sa": enc_seq(sa), "q": 1},
+            {"kind": kind, "n": n, "dt": dt, "xi": xi, "T_over_dt": [p / dt for p in periods], "record dtype": np.dtype(dtp).name,
+             "most negative count present": bool(j % 3 != 2), "raised": raised})
     # long period lists (beyond any internal block size), in no particular order, on short records
     for j, nper in enumerate([257, 300] if tier == "quick" else [257, 300, 513, 600, 1025, 256, 512]):
         n = int(rng.integers(4, 14))
